@@ -43,6 +43,16 @@ def run(res, tier, seed, broken):
     if err:
         broken = broken + [{"obligation": "implementation side failed to run", "log": err[-3000:]}]
 
+    # NumPy-level differentiations (the rule table of C01/C02) running in four threads at once
+    out, e2 = C.run_impl("impl_rules.py", {"seed": seed, "props": ["C20"], "tier": tier, "threads": True,
+                                            "real_for_c09": True}, timeout=2400)
+    if out is None:
+        broken = broken + [{"obligation": "concurrent pass over the rule table failed to run", "log": (e2 or "")[-3000:]}]
+    else:
+        res.count("concurrent-pass cases", out["dist"].get("concurrent-pass", 0))
+        res.add_cases(out["dist"].get("concurrent-pass", 0), ["concurrent|" + k for k in out["keys"][:50]], [])
+        bad = bad + [dict(b, exp=b["primitive"], plan=b["configuration"]) for b in out["bad"] if b["property"] == "C20"]
+
     def hunt():
         for k in range(4 if big else 2):
             b, _, _ = explore(res, "c20_hunt%d" % k, seed + 21 + k, 12, 150)
